@@ -1,6 +1,7 @@
 (** Command substitution [$(cmd)] on one token: the loop of
     do_command_substitution_for_dollar splices the trimmed output of the one
-    substitution when the command plans, and never terminates when it does not. *)
+    substitution; an inner line that does not plan yields the empty output; the loop
+    terminates on every word (each round removes a dollar character). *)
 From Coq Require Import List NArith ZArith Bool Lia.
 From Cicada Require Import Base.Chars Base.Tag Base.Regex Gen.ShellRegexes Model.Expand Model.ExpandRef.
 Import ListNotations.
@@ -122,106 +123,358 @@ Qed.
 Lemma head_of_clean head : ~ In 36 head -> head_of head = ([], head).
 Proof. intros H. unfold head_of. rewrite (split_last_absent 36 head H). reflexivity. Qed.
 
-(* ================================================================== (d) the template *)
-Lemma fmt1_dollar_template o :
-  fmt1 src_dollar_template o
-  = 36 :: 123 :: 104 :: 101 :: 97 :: 100 :: 125 :: (o ++ [36; 123; 116; 97; 105; 108; 125]).
-Proof. reflexivity. Qed.
-
-Lemma tpl_go_clean G NM o r : ~ In 36 o -> tpl_go G NM 0 (o ++ r) = o ++ tpl_go G NM 0 r.
-Proof.
-  induction o as [|c o IH]; intros H; [reflexivity|].
-  cbn [app tpl_go].
-  assert (E : (c =? 36) = false).
-  { apply N.eqb_neq. intros X. apply H. left. exact X. }
-  rewrite E. rewrite IH by (intros X; apply H; right; exact X). reflexivity.
-Qed.
-
-Lemma parse_usize_head : parse_usize (s2l "head") = None.
-Proof. reflexivity. Qed.
-Lemma parse_usize_tail : parse_usize (s2l "tail") = None.
-Proof. reflexivity. Qed.
-
-Lemma cap_ref_head G NM : NM (s2l "head") = Some 1 -> cap_ref G NM [104; 101; 97; 100] = G 1.
-Proof.
-  intros H. unfold cap_ref. change [104; 101; 97; 100] with (s2l "head").
-  rewrite parse_usize_head, H. reflexivity.
-Qed.
-Lemma cap_ref_tail G NM : NM (s2l "tail") = Some 2 -> cap_ref G NM [116; 97; 105; 108] = G 2.
-Proof.
-  intros H. unfold cap_ref. change [116; 97; 105; 108] with (s2l "tail").
-  rewrite parse_usize_tail, H. reflexivity.
-Qed.
-
-Lemma tpl_dollar G NM o :
-  NM (s2l "head") = Some 1 -> NM (s2l "tail") = Some 2 -> ~ In 36 o ->
-  expand_template G NM (fmt1 src_dollar_template o) = G 1 ++ o ++ G 2.
-Proof.
-  intros Hh Ht Ho. rewrite fmt1_dollar_template. unfold expand_template.
-  (* the leading reference *)
-  change (tpl_go G NM 0 (36 :: 123 :: 104 :: 101 :: 97 :: 100 :: 125 :: (o ++ [36; 123; 116; 97; 105; 108; 125])))
-    with (cap_ref G NM [104; 101; 97; 100] ++ tpl_go G NM 0 (o ++ [36; 123; 116; 97; 105; 108; 125])).
-  rewrite cap_ref_head by exact Hh.
-  rewrite tpl_go_clean by exact Ho.
-  change (tpl_go G NM 0 [36; 123; 116; 97; 105; 108; 125]) with (cap_ref G NM [116; 97; 105; 108] ++ []).
-  rewrite cap_ref_tail by exact Ht. rewrite app_nil_r. reflexivity.
-Qed.
+(* ================================================================== (d) the splice *)
+(** since 5e2d7b7 the replacer concatenates head group, output and tail group: the output is text,
+    whatever it contains *)
+Lemma dollar_splice_gen before cmd tail post o pre head :
+  head_of before = (pre, head) ->
+  dollar_splice before cmd tail post o = pre ++ (head ++ o ++ tail) ++ post.
+Proof. intros Hh. unfold dollar_splice. rewrite Hh. reflexivity. Qed.
 
 Lemma dollar_splice_clean head cmd tail o :
-  ~ In 36 head -> ~ In 36 o ->
+  ~ In 36 head ->
   dollar_splice head cmd tail [] o = head ++ o ++ tail.
 Proof.
-  intros Hh Ho. unfold dollar_splice. rewrite (head_of_clean head Hh). cbv zeta.
-  rewrite tpl_dollar; [|reflexivity|reflexivity|exact Ho].
-  cbn [N.eqb Pos.eqb app]. rewrite app_nil_r. reflexivity.
+  intros Hh. rewrite (dollar_splice_gen head cmd tail [] o [] head (head_of_clean head Hh)).
+  cbn [app]. rewrite app_nil_r. reflexivity.
+Qed.
+
+(* ================================================================== the dollar-paren sequence *)
+(** a match of the finder pattern contains the two-character sequence dollar, open paren *)
+Fixpoint has_dollar_paren (s : str) : bool :=
+  match s with
+  | a :: ((b :: _) as r) => ((a =? 36) && (b =? 40)) || has_dollar_paren r
+  | _ => false
+  end.
+
+Lemma has_dollar_paren_cons2 (a b : N) (s : list N) :
+  has_dollar_paren (a :: b :: s) = ((a =? 36) && (b =? 40)) || has_dollar_paren (b :: s).
+Proof. reflexivity. Qed.
+
+Lemma has_dollar_paren_app a b : has_dollar_paren (a ++ 36 :: 40 :: b) = true.
+Proof.
+  induction a as [|x a IH].
+  - reflexivity.
+  - cbn [app]. destruct (a ++ 36 :: 40 :: b) as [|c l] eqn:E.
+    + destruct a; discriminate.
+    + rewrite has_dollar_paren_cons2. rewrite IH. apply orb_true_r.
+Qed.
+
+Lemma has_dollar_paren_false_neq s :
+  has_dollar_paren s = false -> forall a b, s <> a ++ 36 :: 40 :: b.
+Proof. intros H a b E. subst s. rewrite has_dollar_paren_app in H. discriminate. Qed.
+
+Lemma in_cs_single (c x : N) : in_cs false [(c, c)] x = true -> x = c.
+Proof.
+  unfold in_cs. cbn [existsb fst snd]. rewrite xorb_false_l, orb_false_r. intros H.
+  apply andb_true_iff in H as [A B]. apply N.leb_le in A, B. lia.
+Qed.
+
+Lemma chr_single_inv (c : N) m : Matches (Chr false [(c, c)]) m -> m = [c].
+Proof. intros H. inversion H; subst. f_equal. apply in_cs_single. assumption. Qed.
+
+Lemma dollar_cmd_search_inv s :
+  rx_search rx_dollar_cmd s = true -> exists a b, s = a ++ 36 :: 40 :: b.
+Proof.
+  intros H. unfold rx_search in H. apply matchb_spec in H.
+  unfold rx_full, rx_dollar_cmd in H. cbn [rx_ab rx_ae rx_re] in H.
+  apply cat_inv in H as (s1 & s2 & -> & _ & H).
+  apply cat_inv in H as (s3 & s4 & -> & H & _).
+  apply cat_inv in H as (d & r & -> & Hd & H).
+  apply cat_inv in H as (p & r' & -> & Hp & _).
+  apply chr_single_inv in Hd. apply chr_single_inv in Hp. subst d p.
+  exists s1, (r' ++ s4). cbn [app]. reflexivity.
+Qed.
+
+Lemma should_do_needs_dollar_paren s : has_dollar_paren s = false -> should_do_dollar s = false.
+Proof.
+  intros H. unfold should_do_dollar.
+  destruct (rx_search rx_dollar_cmd s) eqn:E; [|reflexivity].
+  apply dollar_cmd_search_inv in E as (a & b & ->).
+  rewrite has_dollar_paren_app in H. discriminate.
+Qed.
+
+Lemma has_dollar_paren_no_dollar s : ~ In 36 s -> has_dollar_paren s = false.
+Proof.
+  induction s as [|a s IH]; intros H; [reflexivity|].
+  destruct s as [|b s]; [reflexivity|].
+  rewrite has_dollar_paren_cons2.
+  rewrite IH by (intros X; apply H; right; exact X).
+  assert (E : (a =? 36) = false) by (apply N.eqb_neq; intros X; apply H; left; exact X).
+  rewrite E. reflexivity.
+Qed.
+
+Lemma has_dollar_paren_no_paren s : ~ In 40 s -> has_dollar_paren s = false.
+Proof.
+  induction s as [|a s IH]; intros H; [reflexivity|].
+  destruct s as [|b s]; [reflexivity|].
+  rewrite has_dollar_paren_cons2.
+  rewrite IH by (intros X; apply H; right; exact X).
+  assert (E : (b =? 40) = false) by (apply N.eqb_neq; intros X; apply H; right; left; exact X).
+  rewrite E, andb_false_r. reflexivity.
 Qed.
 
 (* ================================================================== the loop *)
+Definition oracle_out (W : World) (cmd : str) : str :=
+  match run_capture W cmd with Some o => o | None => [] end.
+
 Lemma dollar_loop_S f W line log :
   dollar_loop (S f) W line log
   = if negb (should_do_dollar line) then Ok (Some line, log)
     else match find_dollar line with
          | None => Ok (None, log)
          | Some (before, cmd, tail, post) =>
-             match run_capture W cmd with
-             | None => dollar_loop f W line (log ++ [cmd])
-             | Some out => dollar_loop f W (dollar_splice before cmd tail post (trim out)) (log ++ [cmd])
-             end
+             dollar_loop f W (dollar_splice before cmd tail post (trim (oracle_out W cmd))) (log ++ [cmd])
          end.
 Proof. reflexivity. Qed.
 
-Theorem dollar_loop_splices : forall W head cmd tail out f,
+(** one substitution: the trimmed output is spliced as it is; dollars of the output ($1, ${x}, $name)
+    and of the tail are kept; the only thing asked of the result is that it has no dollar-paren
+    sequence (which the loop would run again) *)
+Theorem dollar_loop_splices : forall W head cmd tail f,
+  ~ In 36 head -> ~ In 10 tail -> ~ In 41 tail -> cmd <> [] -> ~ In 41 cmd -> ~ In 10 cmd ->
+  (~ In 61 (head ++ [36; 40] ++ cmd ++ [41] ++ tail) \/ ~ In 39 (head ++ [36; 40] ++ cmd ++ [41] ++ tail)) ->
+  has_dollar_paren (head ++ trim (oracle_out W cmd) ++ tail) = false ->
+  dollar_loop (S (S f)) W (head ++ [36; 40] ++ cmd ++ [41] ++ tail) []
+  = Ok (Some (head ++ trim (oracle_out W cmd) ++ tail), [cmd]).
+Proof.
+  intros W head cmd tail f Hh Ht10 Ht41 Hne Hc41 Hc10 Hx Ho.
+  rewrite dollar_loop_S.
+  rewrite (should_do_true head cmd tail Hne Hc41 Hx). cbn [negb].
+  rewrite line_norm. rewrite find_dollar_mid by assumption.
+  rewrite dollar_splice_clean by exact Hh.
+  rewrite dollar_loop_S.
+  erewrite should_do_needs_dollar_paren by exact Ho. reflexivity.
+Qed.
+
+Lemma trim_nil : trim [] = [].
+Proof. reflexivity. Qed.
+
+Theorem dollar_loop_unplannable : forall W head cmd tail f,
   ~ In 36 head -> ~ In 36 tail -> ~ In 10 tail -> ~ In 41 tail ->
   cmd <> [] -> ~ In 41 cmd -> ~ In 10 cmd ->
   (~ In 61 (head ++ [36; 40] ++ cmd ++ [41] ++ tail) \/ ~ In 39 (head ++ [36; 40] ++ cmd ++ [41] ++ tail)) ->
-  run_capture W cmd = Some out -> ~ In 36 (trim out) ->
-  dollar_loop (S (S f)) W (head ++ [36; 40] ++ cmd ++ [41] ++ tail) [] = Ok (Some (head ++ trim out ++ tail), [cmd]).
-Proof.
-  intros W head cmd tail out f Hh Ht36 Ht10 Ht41 Hne Hc41 Hc10 Hx Hrun Ho.
-  rewrite dollar_loop_S.
-  rewrite (should_do_true head cmd tail Hne Hc41 Hx). cbn [negb].
-  rewrite line_norm. rewrite find_dollar_mid by assumption.
-  rewrite Hrun. rewrite dollar_splice_clean by assumption.
-  rewrite dollar_loop_S.
-  rewrite should_do_no_dollar.
-  - reflexivity.
-  - intros X. apply in_app_or in X as [X|X]; [tauto|].
-    apply in_app_or in X as [X|X]; tauto.
-Qed.
-
-Theorem dollar_loop_hangs : forall W head cmd tail,
-  ~ In 36 head -> ~ In 10 tail -> ~ In 41 tail -> cmd <> [] -> ~ In 41 cmd -> ~ In 10 cmd ->
-  (~ In 61 (head ++ [36; 40] ++ cmd ++ [41] ++ tail) \/ ~ In 39 (head ++ [36; 40] ++ cmd ++ [41] ++ tail)) ->
   run_capture W cmd = None ->
-  forall f log, dollar_loop f W (head ++ [36; 40] ++ cmd ++ [41] ++ tail) log = OutOfFuel.
+  dollar_loop (S (S f)) W (head ++ [36; 40] ++ cmd ++ [41] ++ tail) [] = Ok (Some (head ++ tail), [cmd]).
 Proof.
-  intros W head cmd tail Hh Ht10 Ht41 Hne Hc41 Hc10 Hx Hrun f.
-  induction f as [|f IH]; intros log; [reflexivity|].
-  rewrite dollar_loop_S.
-  rewrite (should_do_true head cmd tail Hne Hc41 Hx). cbn [negb].
-  rewrite line_norm. rewrite find_dollar_mid by assumption.
-  rewrite Hrun. rewrite <- line_norm. apply IH.
+  intros W head cmd tail f Hh Ht36 Ht10 Ht41 Hne Hc41 Hc10 Hx Hrun.
+  assert (E : oracle_out W cmd = []) by (unfold oracle_out; rewrite Hrun; reflexivity).
+  rewrite (dollar_loop_splices W head cmd tail f); try assumption.
+  - rewrite E, trim_nil. reflexivity.
+  - rewrite E, trim_nil. apply has_dollar_paren_no_dollar.
+    intros X. apply in_app_or in X as [X|X]; tauto.
 Qed.
 
+(* ================================================================== termination *)
+Lemma span_app p s a b : span p s = (a, b) -> s = a ++ b.
+Proof.
+  revert a b. induction s as [|c s IH]; intros a b H.
+  - cbn in H. injection H as <- <-. reflexivity.
+  - cbn [span] in H. destruct (p c).
+    + destruct (span p s) as [a' b'] eqn:E. injection H as <- <-.
+      cbn [app]. f_equal. apply IH. reflexivity.
+    + injection H as <- <-. reflexivity.
+Qed.
+
+Lemma split_last_app c s a b : split_last c s = Some (a, b) -> s = a ++ c :: b.
+Proof.
+  revert a b. induction s as [|x s IH]; intros a b H; [discriminate|].
+  cbn [split_last] in H. destruct (split_last c s) as [[a' b']|] eqn:E.
+  - injection H as <- <-. cbn [app]. f_equal. apply IH. reflexivity.
+  - destruct (x =? c) eqn:X; [|discriminate]. apply N.eqb_eq in X. subst x.
+    injection H as <- <-. reflexivity.
+Qed.
+
+Lemma strip_prefix1_app c r r' : strip_prefix [c] r = Some r' -> r = c :: r'.
+Proof.
+  destruct r as [|x r]; [discriminate|]. cbn [strip_prefix].
+  destruct (c =? x) eqn:E; [|discriminate]. apply N.eqb_eq in E. subst x.
+  intros H. injection H as <-. reflexivity.
+Qed.
+
+Lemma dollar_at_app r cmd tail post :
+  dollar_at r = Some (cmd, tail, post) -> r = cmd ++ 41 :: tail ++ post.
+Proof.
+  unfold dollar_at, split_nl. destruct (span not_nl r) as [seg post'] eqn:E.
+  destruct (split_last 41 seg) as [[cmd' tail']|] eqn:L; [|discriminate].
+  destruct (is_empty cmd'); [discriminate|]. intros H. injection H as <- <- <-.
+  apply span_app in E. apply split_last_app in L. subst seg. subst r.
+  rewrite <- app_assoc. reflexivity.
+Qed.
+
+Lemma find_dollar_app line before cmd tail post :
+  find_dollar line = Some (before, cmd, tail, post) ->
+  line = before ++ [36; 40] ++ cmd ++ [41] ++ tail ++ post.
+Proof.
+  revert before. induction line as [|c r IH]; intros before H; [discriminate|].
+  cbn [find_dollar] in H.
+  destruct (if c =? 36 then match strip_prefix [40] r with Some r' => dollar_at r' | None => None end else None)
+    as [[[cmd' tail'] post']|] eqn:E.
+  - injection H as <- <- <- <-.
+    destruct (c =? 36) eqn:C; [|discriminate]. apply N.eqb_eq in C. subst c.
+    destruct (strip_prefix [40] r) as [r'|] eqn:P; [|discriminate].
+    apply strip_prefix1_app in P. apply dollar_at_app in E. subst r r'. reflexivity.
+  - destruct (find_dollar r) as [[[[b' cmd'] tail'] post']|] eqn:F; [|discriminate].
+    injection H as <- <- <- <-. cbn [app]. f_equal. apply IH. reflexivity.
+Qed.
+
+Lemma head_of_app before pre head : head_of before = (pre, head) -> before = pre ++ head.
+Proof.
+  unfold head_of. destruct (split_last 36 before) as [[a b]|] eqn:E; intros H; injection H as <- <-.
+  - apply split_last_app in E. rewrite E. rewrite <- app_assoc. reflexivity.
+  - reflexivity.
+Qed.
+
+(** the splice for EVERY position of the dollar-paren, in one piece *)
+Lemma dollar_splice_eq before cmd tail post o :
+  dollar_splice before cmd tail post o = before ++ o ++ tail ++ post.
+Proof.
+  destruct (head_of before) as [pre head] eqn:E.
+  rewrite (dollar_splice_gen before cmd tail post o pre head E).
+  apply head_of_app in E. subst before. rewrite <- !app_assoc. reflexivity.
+Qed.
+
+Lemma split_last_rest c s a b : split_last c s = Some (a, b) -> ~ In c b.
+Proof.
+  revert a b. induction s as [|x s IH]; intros a b H; [discriminate|].
+  cbn [split_last] in H. destruct (split_last c s) as [[a' b']|] eqn:E.
+  - injection H as <- <-. apply (IH a' b'). reflexivity.
+  - destruct (x =? c); [|discriminate]. injection H as <- <-.
+    intros X. revert E. clear -X. induction s as [|y s IH]; [destruct X|].
+    cbn [split_last]. destruct (split_last c s) as [[a b]|] eqn:E; [discriminate|].
+    destruct X as [X|X].
+    + subst y. rewrite N.eqb_refl. discriminate.
+    + exfalso. apply (IH X). reflexivity.
+Qed.
+
+Lemma head_of_clean_head before pre head : head_of before = (pre, head) -> ~ In 36 head.
+Proof.
+  unfold head_of. destruct (split_last 36 before) as [[a b]|] eqn:E; intros H; injection H as <- <-.
+  - apply (split_last_rest _ _ _ _ E).
+  - intros X. revert E. clear -X. induction before as [|y s IH]; [destruct X|].
+    cbn [split_last]. destruct (split_last 36 s) as [[a b]|] eqn:E; [discriminate|].
+    destruct X as [X|X].
+    + subst y. rewrite N.eqb_refl. discriminate.
+    + exfalso. apply (IH X). reflexivity.
+Qed.
+
+Notation cnt s := (count_occ N.eq_dec s 36).
+
+Lemma cnt_zero s : ~ In 36 s -> cnt s = 0%nat.
+Proof. intros H. apply count_occ_not_In. exact H. Qed.
+
+Lemma dollar_splice_count line before cmd tail post o :
+  find_dollar line = Some (before, cmd, tail, post) -> ~ In 36 o ->
+  (cnt (dollar_splice before cmd tail post o) < cnt line)%nat.
+Proof.
+  intros Hf Ho. apply find_dollar_app in Hf. subst line.
+  destruct (head_of before) as [pre head] eqn:Hh.
+  rewrite (dollar_splice_gen before cmd tail post o pre head Hh).
+  apply head_of_app in Hh. subst before.
+  repeat rewrite count_occ_app. pose proof (cnt_zero o Ho) as Z.
+  change (cnt [36; 40]) with 1%nat. change (cnt [41]) with 0%nat. unfold char in *. lia.
+Qed.
+
+Lemma trim_oracle_clean W :
+  (forall c o, run_capture W c = Some o -> ~ In 36 (trim o)) ->
+  forall cmd, ~ In 36 (trim (oracle_out W cmd)).
+Proof.
+  intros H cmd. unfold oracle_out. destruct (run_capture W cmd) as [o|] eqn:E.
+  - apply (H cmd o E).
+  - rewrite trim_nil. intros [].
+Qed.
+
+Lemma dollar_loop_terminates_le W :
+  (forall c o, run_capture W c = Some o -> ~ In 36 (trim o)) ->
+  forall n line log, (cnt line <= n)%nat -> exists r, dollar_loop (S n) W line log = Ok r.
+Proof.
+  intros HW n. induction n as [|n IH]; intros line log Hc.
+  - rewrite dollar_loop_S. rewrite should_do_no_dollar.
+    + cbn [negb]. eexists. reflexivity.
+    + apply (count_occ_not_In N.eq_dec). lia.
+  - rewrite dollar_loop_S. destruct (should_do_dollar line); cbn [negb]; [|eexists; reflexivity].
+    destruct (find_dollar line) as [[[[before cmd] tail] post]|] eqn:F; [|eexists; reflexivity].
+    apply IH.
+    pose proof (dollar_splice_count line before cmd tail post _ F (trim_oracle_clean W HW cmd)). lia.
+Qed.
+
+Theorem dollar_loop_terminates : forall W,
+  (forall c o, run_capture W c = Some o -> ~ In 36 (trim o)) ->
+  forall line log, exists r, dollar_loop (S (count_occ N.eq_dec line 36)) W line log = Ok r.
+Proof. intros W HW line log. apply (dollar_loop_terminates_le W HW). apply le_n. Qed.
+
+(* ================================================================== embedded backquotes *)
+Lemma span_not_bq_stop h r : ~ In 96 h -> span not_bq (h ++ 96 :: r) = (h, 96 :: r).
+Proof.
+  induction h as [|c h IH]; intros H; [reflexivity|].
+  cbn [app span]. unfold not_bq at 1.
+  destruct (c =? 96) eqn:E.
+  - apply N.eqb_eq in E. exfalso. apply H. left. exact E.
+  - cbn [negb]. rewrite IH; [reflexivity|]. intros X. apply H. right. exact X.
+Qed.
+
+Lemma span_not_bq_all t : ~ In 96 t -> span not_bq t = (t, []).
+Proof.
+  induction t as [|c t IH]; intros H; [reflexivity|].
+  cbn [span]. unfold not_bq at 1.
+  destruct (c =? 96) eqn:E.
+  - apply N.eqb_eq in E. exfalso. apply H. left. exact E.
+  - cbn [negb]. rewrite IH; [reflexivity|]. intros X. apply H. right. exact X.
+Qed.
+
+Lemma contains_char_absent c t : ~ In c t -> contains_char c t = false.
+Proof.
+  induction t as [|x t IH]; intros H; [reflexivity|].
+  unfold contains_char. cbn [existsb].
+  assert (E : (x =? c) = false) by (apply N.eqb_neq; intros X; apply H; left; exact X).
+  rewrite E. cbn [orb]. apply IH. intros X. apply H. right. exact X.
+Qed.
+
+Lemma dot_split_mid h c t :
+  ~ In 96 h -> ~ In 96 c -> c <> [] -> ~ In 10 t ->
+  dot_split (h ++ 96 :: c ++ 96 :: t) = Some (h, c, t).
+Proof.
+  intros Hh Hc Hne Ht. unfold dot_split.
+  rewrite span_not_bq_stop by exact Hh. cbn [strip_prefix]. rewrite N.eqb_refl.
+  rewrite span_not_bq_stop by exact Hc. cbn [strip_prefix]. rewrite N.eqb_refl.
+  rewrite contains_char_absent by exact Ht.
+  destruct c; [congruence|reflexivity].
+Qed.
+
+Lemma dot_split_no_bq t : ~ In 96 t -> dot_split t = None.
+Proof. intros H. unfold dot_split. rewrite span_not_bq_all by exact H. reflexivity. Qed.
+
+Lemma dot_loop_S f W tok item output log :
+  dot_loop (S f) W tok item output log
+  = match dot_split tok with
+    | None => Ok (if is_empty tok then item else item ++ tok, log)
+    | Some (h, c, t) =>
+        let output' := match run_capture W c with Some out => trim out | None => output end in
+        let item' := item ++ h ++ output' in
+        if is_empty t then Ok (item', log ++ [c]) else dot_loop f W t item' output' (log ++ [c])
+    end.
+Proof. reflexivity. Qed.
+
+(** one embedded backquote command: its trimmed output is spliced when the command plans;
+    when it does not, the PREVIOUS output (as it is) is spliced instead *)
+Theorem dot_loop_one : forall W h c t item output log f,
+  ~ In 96 h -> ~ In 96 c -> c <> [] -> ~ In 96 t -> ~ In 10 t ->
+  dot_loop (S (S f)) W (h ++ 96 :: c ++ 96 :: t) item output log
+  = Ok (item ++ h ++ (match run_capture W c with Some o => trim o | None => output end) ++ t, log ++ [c]).
+Proof.
+  intros W h c t item output log f Hh Hc Hne Ht96 Ht10.
+  rewrite dot_loop_S. rewrite dot_split_mid by assumption. cbv zeta.
+  destruct t as [|x t].
+  - cbn [is_empty]. rewrite app_nil_r. reflexivity.
+  - cbn [is_empty]. rewrite dot_loop_S. rewrite dot_split_no_bq by exact Ht96.
+    cbn [is_empty]. rewrite <- !app_assoc. reflexivity.
+Qed.
+
+Print Assumptions dollar_splice_eq.
 Print Assumptions dollar_loop_splices.
-Print Assumptions dollar_loop_hangs.
+Print Assumptions dollar_loop_unplannable.
+Print Assumptions dollar_loop_terminates.
+Print Assumptions dot_loop_one.
+Print Assumptions should_do_needs_dollar_paren.
+Print Assumptions has_dollar_paren_no_dollar.
+Print Assumptions has_dollar_paren_no_paren.
